@@ -86,6 +86,13 @@ def generate(seed, tier):
                     st = ['call', 'attempt' if drv == 'attempt' else 'call', [['name', f]] + args, 'plain']
                 at = ro.randrange(len(prog[1]) + 1)
                 prog[1].insert(at, ['assign', 'r', st])
+                one = sorted(k for k, v in arity.items() if v == 1)
+                if one and ro.random() < 0.15:
+                    # the host also binds a mapping object whose items are COMPUTED by a stored lambda (HM[k] calls it): reading
+                    # it through a builtin drives that lambda's body like any host callback does
+                    world['lammap'] = ro.choice(one)
+                    prog[1].insert(ro.randrange(len(prog[1]) + 1), ['assign', 'r', ['call', ro.choice(['get', 'get', '__getitem__']),
+                                                                                   [['name', 'HM'], ['num', str(ro.randint(0, 3))]] + ([['num', '0']] if ro.random() < 0.7 else []), 'plain']])
                 if ro.random() < 0.35:
                     # a host callback re-enters the parser (nested eval) before the stored lambda is invoked
                     prog[1].insert(ro.randrange(at + 1), ['call', 're', [['num', str(ro.choice([0, 1, 1, 2, 2]))]], 'plain'])
@@ -120,6 +127,23 @@ def _pre_state(case):
             except Exception:
                 return 'inner-failed'
     W.host.on_reenter = reenter
+    if case['world'].get('lammap'):
+        import collections.abc
+        fname = case['world']['lammap']
+
+        class LamMap(collections.abc.Mapping):
+            def __getitem__(self, k):
+                f = names.get(fname)
+                if not callable(f):
+                    raise KeyError(k)
+                return f(k)
+
+            def __iter__(self):
+                return iter(())
+
+            def __len__(self):
+                return 0
+        names['HM'] = LamMap()
     for op in case['ops'][:-1]:
         real_eval(W.parser, lang.render(op['prog'], op.get('style', 0)), names, budget=10 ** 9)
     return W, names
